@@ -119,6 +119,10 @@ func (t *mixedTable) next(k Value) (next Value, v Value, ok bool) {
 		isInt = true
 	} else {
 		i, isInt = ToIntNoString(k)
+		if isInt && i == 0 {
+			// 0 is not the start position: it is a key of the hash table
+			return t.hashTable.next(IntValue(0))
+		}
 	}
 	if isInt {
 		j, v, ok := t.array.next(i)
